@@ -13,7 +13,7 @@ use wirefilter::{ExecutionContext, Filter, FilterValue, Scheme};
 
 pub const ID: &str = "C18";
 
-const FILTERS: [&str; 12] = [
+const FILTERS: [&str; 14] = [
     "s matches \"^a.*b$\"",
     "s wildcard \"a*b\"",
     "s contains \"ab\"",
@@ -27,6 +27,10 @@ const FILTERS: [&str; 12] = [
     "i == 1 and s contains \"ab\"",
     "i == 2 or s contains \"Ba\" or ip == ::1",
     "i == 1 and not ip == 1.2.3.4 and s contains \"ab\" and any(xs[*] == \"ab\")",
+    // a non-mapped argument that is a call over a literal *and* a field: it looks constant to a
+    // careless analysis and is different on every context (12, 13)
+    "any(cat2(xs[*], cat2(s, \"-\"))[*] == \"ba+ba+-\")",
+    "any(cat2(xs[*], opt(s, 3))[*] == \"ab+ab|3|d\") or any(concat(xs[*], concat(\"-\", s))[*] == \"ba-ba\")",
 ];
 /// filters of the list above whose operands decide differently on different contexts
 const COMBINATORS: [usize; 3] = [9, 10, 11];
